@@ -51,6 +51,7 @@ ASSUMPTIONS = [
 N_VARIANTS = 4
 
 OBLIGATIONS = {
+    "calendar_sort": "sort / sortRadix on instants spread over 1970, 1999/2000, a leap day, 2038, 2069/2070 and 2099",
     "sort_radix": "Track.sortRadix was applied (same requirement as sort)",
     "pop_obs": "popObs(i) returned the designated observation and left the others",
     "slice_operator": "track[i:j] compared with the designated observations",
@@ -764,6 +765,47 @@ def check_state(root, track, hist, ctx):
             ctx.transition()
 
 
+# ---------------------------------------------------------------------------
+# sorting across calendar boundaries: the two sort methods on every tuple of 2..3 instants of a calendar alphabet
+# (the radix sort buckets by calendar field, so the year 2000, a leap day, 2038 and the last years of the century matter)
+# ---------------------------------------------------------------------------
+CALENDAR = [(1970, 1, 1, 0, 0, 0), (1999, 12, 31, 23, 59, 59), (2000, 1, 1, 0, 0, 0), (2000, 2, 29, 12, 0, 0),
+            (2038, 1, 19, 3, 14, 8), (2069, 12, 31, 23, 59, 59), (2070, 1, 1, 0, 0, 0), (2099, 12, 31, 23, 59, 59)]
+
+
+def check_calendar_sort(variant, idx, method, ctx):
+    case = {"kind": "calendar", "variant": variant, "idx": list(idx), "method": method}
+    t = Track()
+    for k, i in enumerate(idx):
+        x, y = alpha.xy(variant, float(k), float(i))
+        o = Obs(ENUCoords(x, y, float(k)), alpha.obstime(calendar.timegm(CALENDAR[i] + (0, 0, 0))))
+        t.addObs(o)
+    t.createAnalyticalFeature(FEATS[0], [float(10 + k) for k in range(len(idx))])
+    sb = snap(t)
+    ctx.case(len(set(idx)) > 1)
+    ctx.transition()
+    st, r = guard(t.sort if method == "sort" else t.sortRadix)
+    name = "sort" if method == "sort" else "sortRadix"
+    years = sorted(set(CALENDAR[i][0] for i in idx))
+    cls = "calendar/" + ("years-from-2070" if years[-1] >= 2070 else ("across-2000" if years[0] < 2000 <= years[-1] else "other"))
+    key = "%s/%s/" % (name, cls)
+    if st != "ok":
+        ctx.violation(key + ("does-not-return" if st == "hang" else "raises"), case, r)
+        return
+    st, sa = guard(snap, t)
+    if st != "ok":
+        ctx.violation(key + "track-unreadable-afterwards", case, sa)
+        return
+    if sorted(sa) != sorted(sb):
+        ctx.violation(key + "not-the-same-observations", case, {"before": _json_snap(sb), "after": _json_snap(sa)})
+        return
+    if not is_sorted(sa):
+        ctx.violation(key + "not-in-time-order", case, {"before": _json_snap(sb), "after": _json_snap(sa)})
+        return
+    ctx.oblige("calendar_sort")
+    ctx.outcome(("cal", method, cls))
+
+
 def _case(root, hist):
     return {"variant": root["variant"], "root": {"times": list(root["times"]), "rid": root["rid"], "kind": root["kind"],
                                                  "variant": root["variant"]},
@@ -827,10 +869,20 @@ def plan(tier, variant):
             cur, w = [], 0.0
     if cur:
         shards.append({"variant": variant, "roots": cur})
+    shards.append({"variant": variant, "kind": "calendar"})
     return shards
 
 
 def run_shard(shard, ctx):
+    if shard.get("kind") == "calendar":
+        v = shard["variant"]
+        for n in (2, 3):
+            for idx in itertools.product(range(len(CALENDAR)), repeat=n):
+                check_calendar_sort(v, idx, "sort", ctx)
+                if n == 2 or len(set(idx)) == 3:
+                    check_calendar_sort(v, idx, "sortradix", ctx)
+        ctx.sample({"calendar_instants": [list(c) for c in CALENDAR], "tuples": "all of 2..3 instants", "methods": ["sort", "sortRadix"]})
+        return
     for root in shard["roots"]:
         explore_root(root, ctx)
     r = shard["roots"][0]
@@ -840,6 +892,8 @@ def run_shard(shard, ctx):
 
 
 def replay(case, ctx):
+    if case.get("kind") == "calendar":
+        return check_calendar_sort(case["variant"], tuple(case["idx"]), case["method"], ctx)
     root = dict(case["root"])
     root["depth"] = 0
     mk, ap = make_root(root), apply_event_of(root)
